@@ -120,11 +120,36 @@ def cli_slice(acc, prog, files, res):
                 acc.violation("cli|prg-differs", "main.prg differs from the merged image", {"files": files, "got": out.hex()[:200], "want": want.hex()[:200]})
 
 
+STALE_WITNESS = ".const v = 5\ns: {\n  .if v < 3 { nop } else { .const x = 9 }\n  .byte x\n  .const v = 1\n}\n.const x = 7\n"
+
+
+def stale_definition_witness(acc, probe):
+    """Known finding: what an `.if` branch defined in an early pass (when its condition was still evaluated with an outer
+    symbol of the same name) stays in the symbol table after the branch is no longer taken. Final state: inner v = 1, so the
+    then-branch is assembled and `x` is the outer constant 7 - the assembler emits the 9 of the abandoned else-branch."""
+    acc.evaluations += 1
+    r = probe.ask({"files": {"main.asm": STALE_WITNESS}, "ops": ["parse", "codegen"], "opts": {"pc": 0x2000}})
+    cg = r.get("codegen", {})
+    if cg.get("diags") or "ctx" not in cg:
+        acc.inconc("stale-definition witness does not assemble: %r" % (cg.get("diags"),))
+        return
+    got = "".join(s["bytes"] for s in cg["ctx"]["segments"])
+    if got == "ea07":
+        acc.count("stale_definition_witness.fixed")
+    elif got == "ea09":
+        acc.violation("cert|stale-definition-of-untaken-branch", "`.byte x` assembles to 09: the constant of an else-branch that is not taken in the final pass; the fixed point has x = 7",
+                      {"files": {"main.asm": STALE_WITNESS}, "bytes": got, "expected": "ea07"})
+    else:
+        acc.violation("cert|witness|unexpected-bytes", "stale-definition witness assembles to %s (expected ea07)" % got, {"files": {"main.asm": STALE_WITNESS}, "bytes": got})
+
+
 def shard(idx, n, seed, tier, params):
     acc = Acc()
     probe = Probe()
     rng = rng_for(seed, "c02", idx)
     t_end = time.time() + params["budget"]
+    if idx == 0:
+        stale_definition_witness(acc, probe)
     for i in range(params["programs"] // n):
         if time.time() > t_end:
             acc.count("budget_cut")
